@@ -100,6 +100,7 @@ macro_rules! split_instance {
         #[kani::unwind(6)]
         fn $name() {
             split_step::<$e>($fill, $sizes);
+            kani::cover!(true, "end of harness reachable (assumptions satisfiable, no unconditional failure)");
         }
         }
     };
@@ -182,5 +183,6 @@ crate::verif_tier_c! {
 #[kani::unwind(6)]
 fn vs_split_mtu_probe_rule() {
     probe_step(kani::any());
+    kani::cover!(true, "end of harness reachable (assumptions satisfiable, no unconditional failure)");
 }
 }
